@@ -155,7 +155,7 @@ def part_rbs2json(ctx, part):
                 {"class": cls, "call": args, "note": note, "signature": m["ft"], "emitted": emitted.get((m["name"], m["singleton"]))}))
         part.sample({"methods": [m["name"] for m in methods][:4], "files": sorted(files)})
     fn = ("fun c => let '(ft, rt, obs, ret) := c in "
-          "let conv := fun t => match convert_type 12 [(\"size\"%string, RT \"class_instance\" \"::Integer\" [] None [] \"\")] \"Widget\" t with Some l => l | None => [] end in "
+          "let conv := fun t => match convert_type 16 [(\"size\"%string, RT \"class_instance\" \"::Integer\" [] None [] \"\"); (\"loop_a\"%string, RT \"alias\" \"loop_b\" [] None [] \"\"); (\"loop_b\"%string, RT \"alias\" \"loop_a\" [] None [] \"\")] \"Widget\" t with Some l => l | None => [] end in "
           "list_eqb tiarg_eqb (convert_arguments conv ft) obs && "
           "(list_eqb String.eqb (conv rt) ret || (list_eqb String.eqb (conv rt) [\"NilClass\"%string] && false))")
     bad = corr.coq_mismatches(["Model.Rbs2Json"], "functype * rtype * list tiarg * list string", fn, terms, chunk=150)
